@@ -99,6 +99,9 @@ fn compositions(compressed: bool, tier: Tier) -> Vec<Step> {
     out.extend(bursts);
     // the empty step = a transient socket error (see run_blocking)
     out.push(vec![]);
+    // an empty datagram inside a step = the application calls handshake() after the first packet of the step
+    out.push(if compressed { vec![vec![4, 8, 4], vec![]] } else { vec![vec![4, 8, 4], vec![]] });
+    out.push(if compressed { vec![vec![508, 512], vec![]] } else { vec![vec![100, 152], vec![]] });
     out
 }
 
@@ -153,6 +156,7 @@ fn datagram(compressed: bool, comp: &Step, step: usize) -> (Vec<Vec<u8>>, Vec<Ve
     let mut dgrams = vec![];
     let mut all = vec![];
     for (d, lens) in comp.iter().enumerate() {
+        if lens.is_empty() { continue; } // marker: handshake after the first packet of the step has been read
         let frames: Vec<Vec<u8>> = lens.iter().enumerate().map(|(i, l)| frame(compressed, *l, ((step * 31 + d * 13 + i * 7) % 250) as u8 + 1)).collect();
         dgrams.push(frames.concat());
         all.extend(frames);
@@ -204,7 +208,15 @@ fn run_blocking(compressed: bool, comps: &[Step], hist: &[u8]) -> Run {
         }
         // (loopback: a datagram is on the receiving socket's queue when send() returns)
         let mut got = vec![];
+        let hs = comps[*ci as usize].iter().any(|d| d.is_empty());
         for k in 0..frames.len() {
+            if hs && k == 1 {
+                // the application (re)sends its ISI in the middle of a datagram's packets
+                if let Err(e) = framed.handshake(insim::insim::Isi::default()) {
+                    out.problem = Some(("harness".into(), format!("handshake failed: {e}")));
+                    return out;
+                }
+            }
             match framed.read() {
                 Ok(p) => got.push(format!("Ok({p:?})")),
                 Err(e) => {
@@ -269,7 +281,14 @@ fn run_tokio(compressed: bool, comps: &[Step], hist: &[u8]) -> Run {
                 let _ = peer.send(d).await.unwrap();
             }
             let mut got = vec![];
+            let hs = comps[*ci as usize].iter().any(|d| d.is_empty());
             for k in 0..frames.len() {
+                if hs && k == 1 {
+                    if !matches!(tokio::time::timeout(WATCHDOG_CONFIRM, framed.handshake(insim::insim::Isi::default(), Duration::from_secs(2))).await, Ok(Ok(()))) {
+                        out.problem = Some(("harness".into(), "handshake failed".into()));
+                        return out;
+                    }
+                }
                 match tokio::time::timeout(watchdog(), framed.read()).await {
                     Ok(Ok(p)) => got.push(format!("Ok({p:?})")),
                     Ok(Err(e)) => {
